@@ -7,11 +7,23 @@ chipset simulator vf.sim.chipsets.rcs380.Port100Sim.  Everything is observed at 
 C13 monitor   for every target kind: real clf.sense()/clf.listen() against the simulator, one reference
               exchange (n host commands), then for k = 1..n and every status / host-link fault one exchange with the
               fault at host command k; the outcome must be data | None (as target only) | nfc.clf.CommunicationError
-              subclass | IOError.  Finer clauses for communication status words made of documented bits only:
-              RECEIVE_TIMEOUT_ERROR alone -> TimeoutError; as a listening target RF_OFF_ERROR alone or together
-              with any other documented bits -> BrokenLinkError (the external field is gone whatever else the chip
-              noticed); a word without the time-out bit never TimeoutError, without the RF-off bit never
-              BrokenLinkError.
+              subclass | IOError, judged by the concrete type of what was raised (a driver-internal class derived
+              from a documented one is an escape too).  Finer clauses for communication status words: as a
+              listening target every word with RF_OFF_ERROR set -> BrokenLinkError (the external field is gone
+              whatever else the chip noticed); otherwise every word with RECEIVE_TIMEOUT_ERROR set -> TimeoutError
+              (both whatever other bits, documented or not, are set); words made of documented bits only: without
+              the time-out bit never TimeoutError, without the RF-off bit never BrokenLinkError (about the other bits
+              the chip documentation is silent).
+              Data clause: an exchange that ends in data returns exactly the octets the simulated remote sent
+              during this exchange (not judged where the chip delivered a well-formed response frame with other
+              content); if the response frame fails the independent frame check and other data comes back:
+              rcs380/data-differs/frame-check-failed:<rule>.
+              Sequences on one session: time-out argument classes (0, None, < 1 ms, regular, 65.535 s, above) x
+              remote answers / keeps silent x send+receive / receive only, each followed by regular exchanges;
+              two-fault schedules (soft host-link fault at a preparatory command + RF status / host-link fault
+              later in the same exchange; RF status then hard host-link fault in consecutive exchanges and the
+              reverse; ordered pairs of RF status words) after 0..5 successful exchanges; unread transfers left
+              in the bulk-in pipe by a failed command must not answer the next one.
               Host-link clause: where the simulated transport itself raised IOError (write / ACK read / response
               read of host command k: the harness knows the chip never saw, never acknowledged or never answered
               the command) the only acceptable report is IOError - not an RF error, not data, not None / "no
@@ -23,7 +35,10 @@ C13 monitor   for every target kind: real clf.sense()/clf.listen() against the s
               Device init()/close() under the same faults are observed (no verdict).
 C14 monitors  frames: Chipset.send_command() and the Frame class for all command codes x payload lengths, every
               written frame against vf.ref.port100_frames; responses: how corrupted responses are handled (recorded
-              only); t2crc: the driver-side CRC_A check of Type 2 Tag responses against a bit-serial reference.
+              only); t2crc: the driver-side CRC_A check of Type 2 Tag responses against a bit-serial reference;
+              selres: the same for Type A cards over every SEL_RES value (driver-side check for (SEL_RES & 60h) == 0,
+              chip-side otherwise; the simulated chip follows InSetProtocol add_crc / check_crc, a card ignores a
+              command sent without CRC) and the CRC-less one octet ACK/NAK, which must reach the caller.
 """
 import itertools
 import random
@@ -50,7 +65,11 @@ RULE_C13 = ("cells = target kind (9 remote cards: T1T/T2T/T4A/DEP 106A, 106B, 21
             "code/direction, error frames, every truncation of frame and payload, status bytes 01h/02h/7Fh/FFh "
             "(configuration commands) and the 12 documented status bits (RF commands). init()/close(): the same "
             "faults at each of their host commands, observed only. "
-            "A cell is distinct by (stage, kind, k, fault) and non-trivial "
+            "Sequences: per kind 13 time-out values x remote answers/silent x send+receive/receive-only (target), "
+            "each after one and before two regular exchanges; two-fault schedules (quick: 40 sampled in-exchange pairs, 24 "
+            "cross-exchange pairs, 24 ordered RF status pairs per kind; thorough: all) after 0..5 successful exchanges; "
+            "unread-transfer schedules at every host command. "
+            "A cell is distinct by (stage, kind, k, fault) / the whole step list and non-trivial "
             "when the scripted fault was really delivered by the simulator during the exchange.")
 RULE_C14 = ("frames: every command code of the driver's table x payload lengths (quick 0..6, 250..270, 508..516, "
             "boundaries up to the 16 bit maximum, random; thorough every length 0..1100 per code and every length "
@@ -58,7 +77,10 @@ RULE_C14 = ("frames: every command code of the driver's table x payload lengths 
             "validator and decoded back to (code, payload); responses: every single-bit flip, truncation and extension "
             "of valid responses (outcome classes recorded, no verdict); t2crc: Type 2 Tag responses with "
             "valid CRC_A (all 1-byte, sampled/all 2-byte, random longer messages) must come back unchanged, every "
-            "single-bit corruption and random wrong CRCs must not be returned as data. A case is distinct by its bytes.")
+            "single-bit corruption and random wrong CRCs must not be returned as data; selres: Type A cards with every "
+            "SEL_RES (quick: the 64 values with (SEL_RES & 60h) == 0 and 7 others; thorough: all 256) x valid / bit-flipped / "
+            "substituted answers of 1, 4, 16 (thorough more) octets + CRC-less 1 and 2 octet answers. "
+            "A case is distinct by its bytes.")
 REQUIRED_C13 = ["rcs380_c13_cells", "rcs380_c13_cells_rf_status", "rcs380_c13_cells_status_byte",
                 "rcs380_c13_cells_hostlink", "rcs380_c13_reference_exchanges", "rcs380_c13_host_frames_validated",
                 "rcs380_c13_finer_timeout_checked", "rcs380_c13_finer_rf_off_alone_checked",
@@ -74,10 +96,35 @@ REQUIRED_C13 = ["rcs380_c13_cells", "rcs380_c13_cells_rf_status", "rcs380_c13_ce
                 "rcs380_c13_hostlink_sense_preparatory_checked", "rcs380_c13_hostlink_listen_preparatory_checked",
                 "rcs380_c13_activation_surplus_delivered", "rcs380_c13_activation_wrong_ack_delivered",
                 "rcs380_c13_activation_wrong_rsp_code_delivered",
-                "rcs380_c13_init_observed", "rcs380_c13_close_observed"]
+                "rcs380_c13_init_observed", "rcs380_c13_close_observed",
+                # finer RF status clauses over all words that contain the documented bit
+                "rcs380_c13_finer_timeout_combined_checked", "rcs380_c13_finer_timeout_with_undocumented_checked",
+                "rcs380_c13_finer_timeout_as_initiator_checked", "rcs380_c13_finer_timeout_as_target_checked",
+                "rcs380_c13_finer_rf_off_with_undocumented_checked",
+                # 'returns the received data', concrete exception types
+                "rcs380_c13_fidelity_checked", "rcs380_c13_fidelity_as_initiator_checked",
+                "rcs380_c13_fidelity_as_target_checked", "rcs380_c13_concrete_type_checked",
+                "rcs380_c13_concrete_type_exchange_checked", "rcs380_c13_concrete_type_sense_checked",
+                "rcs380_c13_concrete_type_listen_checked", "rcs380_c13_fault_reached",
+                # time-out argument classes
+                "rcs380_c13_timeouts_steps", "rcs380_c13_timeouts_as_initiator", "rcs380_c13_timeouts_as_target",
+                "rcs380_c13_timeouts_zero", "rcs380_c13_timeouts_none", "rcs380_c13_timeouts_below_1ms",
+                "rcs380_c13_timeouts_above_65535ms", "rcs380_c13_timeouts_receive_only",
+                "rcs380_c13_timeouts_silent_checked", "rcs380_c13_timeouts_answer_checked",
+                "rcs380_c13_timeouts_follow_ups_demanded",
+                # two-fault schedules, exchanges after successful ones
+                "rcs380_c13_schedule_fault_steps", "rcs380_c13_schedule_two_faults_in_one_exchange",
+                "rcs380_c13_schedule_fault_after_faulty_exchange", "rcs380_c13_schedule_warm_exchanges",
+                "rcs380_c13_schedule_follow_ups", "rcs380_c13_schedule_follow_ups_demanded",
+                "rcs380_c13_schedule_follow_ups_with_unread_transfers"]
 REQUIRED_C14 = ["rcs380_c14_frames_validated", "rcs380_c14_frame_class_validated", "rcs380_c14_rsp_mutations",
                 "rcs380_c14_t2crc_valid_returned", "rcs380_c14_t2crc_corrupt_rejected",
-                "rcs380_c14_operation_frames_validated"]
+                "rcs380_c14_operation_frames_validated",
+                # SEL_RES sweep: driver-side CRC_A check for every Type 2 Tag platform SEL_RES, chip-side for the others
+                "rcs380_c14_selres_00_cells", "rcs380_c14_selres_tt2_nonzero_cells", "rcs380_c14_selres_iso_or_dep_cells",
+                "rcs380_c14_selres_tt2_nonzero_valid_returned", "rcs380_c14_selres_tt2_nonzero_corrupt_rejected",
+                "rcs380_c14_selres_iso_or_dep_valid_returned", "rcs380_c14_selres_iso_or_dep_corrupt_rejected",
+                "rcs380_c14_acknak_cases", "rcs380_c14_acknak_returned", "rcs380_c14_acknak_rejected_non_tt2"]
 ASSUMPTIONS = [
     "rcs380: vf.sim.chipsets.rcs380 follows the Port-100 host protocol (frame format, command/response layouts as in "
     "the public Linux port100 driver); its answers agree with the literal transcripts of tests/test_clf_rcs380.py",
@@ -87,6 +134,12 @@ ASSUMPTIONS = [
     "rcs380: a host command whose write or ACK read fails with IOError was not executed by the chip; one whose "
     "response read fails was executed and its answer lost",
     "rcs380: Type 2 Tag responses of 2 bytes or less carry no CRC (ACK/NAK) and are outside the CRC oracle",
+    "rcs380: with InSetProtocol add_crc = 0 the chip transmits the host's octets unchanged and a card ignores a command "
+    "that needs a CRC and has none; with check_crc = 0 the chip hands out the CRC octets unverified",
+    "rcs380: (unread-transfer schedules only) a transfer the host did not read stays in the USB bulk-in pipe until it is "
+    "read or the host writes an ACK frame",
+    "rcs380: a well-formed response frame (LEN, LCS, DCS, postamble, code correct) is what the chip said: data that "
+    "differs from the remote's is prosecuted only if the frame fails the independent frame check",
 ]
 
 _CLOCK = None
@@ -137,15 +190,16 @@ class SetupError(Exception):
 
 
 class Session:
-    def __init__(self, kind, activate=True, absent=False):
-        """absent: nobody in front of the chip (no card in the field / no reader): sense()/listen() find nothing"""
+    def __init__(self, kind, activate=True, absent=False, sel_res=None):
+        """absent: nobody in front of the chip (no card in the field / no reader): sense()/listen() find nothing
+        sel_res: the Type A card answers this SEL_RES instead of its kind's usual one"""
         import nfc.clf
         self.nfc = nfc
         self.kind = kind
         self.is_target = kind in INI_KINDS
         self.absent = absent
         self.clock = _setup()
-        self.card = S.RemoteCard(kind) if not self.is_target else None
+        self.card = S.RemoteCard(kind, sel_res=sel_res) if not self.is_target else None
         self.ini = S.RemoteInitiator(kind) if self.is_target else None
         self.sim = S.Port100Sim(clock=self.clock, card=None if absent else self.card,
                                 initiator=None if absent else self.ini)
@@ -228,12 +282,18 @@ class Session:
             send = self.send_data()
         data, timeout = send
         self.sim.mark(script)
+        self.rx0 = self.sim.rx_count
+        self.sim.rf_log.clear()          # last_rx()/last_tx() speak about this exchange only
         try:
             return ("ret", self.clf.exchange(data, timeout)), send
-        except Exception as e:           # the oracle classifies it
+        except BaseException as e:       # the oracle classifies it (SystemExit, KeyboardInterrupt, GeneratorExit too)
             return ("exc", e), send
 
+    def remote(self):
+        return self.ini if self.is_target else self.card
+
     def last_rx(self):
+        """what the remote side sent during the last exchange (None: nothing)"""
         for d, brty, data in reversed(self.sim.rf_log):
             if d == "rx":
                 return data
@@ -282,7 +342,12 @@ TIMEOUT_BIT = S.STATUS_BITS["RECEIVE_TIMEOUT_ERROR"]
 RF_OFF_BIT = S.STATUS_BITS["RF_OFF_ERROR"]
 
 
+PLAIN = {"kind": "none"}         # the "action" of an exchange without scripted fault
+
+
 def fault_class(act):
+    if act is None or act["kind"] == "none":
+        return "no-fault"
     if act["kind"] == "rf_status":
         return "rf-status"
     if act["kind"] == "status_byte":
@@ -396,6 +461,125 @@ def judge(sess, code, act, res, notes=None):
     return out, viol
 
 
+def public_exception_type(exc):
+    """True if the concrete type of an exception that left clf.exchange()/sense()/listen() is one of the documented
+    public classes: nfc.clf.CommunicationError and its four documented kinds, nfc.clf.UnsupportedTargetError, or
+    IOError / OSError (the builtin class or one of the builtin errno subclasses Python picks by itself for
+    OSError(errno, ...)).  A class defined anywhere else (rcs380.CommunicationError, rcs380.StatusError, ...) is
+    driver-internal even when it derives from a documented one.  (Same rule as vf.drivers.pn53x_family.)"""
+    import nfc.clf
+    t = type(exc)
+    if t in (nfc.clf.CommunicationError, nfc.clf.TimeoutError, nfc.clf.TransmissionError, nfc.clf.ProtocolError,
+             nfc.clf.BrokenLinkError, nfc.clf.UnsupportedTargetError):
+        return True
+    return issubclass(t, OSError) and t.__module__ == "builtins"
+
+
+def type_name(exc):
+    t = type(exc)
+    return t.__qualname__ if t.__module__ == "builtins" else "%s.%s" % (t.__module__, t.__qualname__)
+
+
+def concrete_type_clause(stage, where, exc, notes):
+    """'Driver-internal exception types never escape': judged by the concrete type, not by isinstance"""
+    notes.append("rcs380_c13_concrete_type_checked")
+    notes.append("rcs380_c13_concrete_type_%s_checked" % stage)
+    if public_exception_type(exc):
+        return []
+    base = "CommunicationError" if isinstance(exc, _nfc().clf.CommunicationError) else (
+        "OSError" if isinstance(exc, OSError) else "Error")
+    return [("rcs380/internal-type/%s(%s)/%s/%s" % (_xsig(exc), base, where, stage),
+             "ContactlessFrontend.%s() raised the driver-internal %s (a %s subclass); documented are nfc.clf.TimeoutError"
+             " / TransmissionError / ProtocolError / BrokenLinkError and IOError" % (stage, type_name(exc), base))]
+
+
+def _nfc():
+    import nfc.clf
+    return nfc
+
+
+def fidelity_clause(sess, code, act, val, notes):
+    """exchange() 'returns the received data': what came back must be exactly the octets the simulated remote side
+    sent during this exchange.  Not judged where the chip itself delivered a *well-formed* response frame with other
+    content than the regular one (surplus / shortened payload inside correct LEN, LCS, DCS): the host cannot know
+    better than its chip.  -> [(signature, what)]"""
+    cname = S.CMD_NAMES.get(code, "%02Xh" % code)
+    role = "target" if sess.is_target else "initiator"
+    sent = sess.last_rx()
+    got = bytes(val)
+    rule = None
+    if act is not None and act["kind"] == "link" and code in S.RF_COMMANDS:
+        frames = sess.sim.delivered
+        rsp = bytes(frames[1]) if len(frames) > 1 and isinstance(frames[1], (bytes, bytearray)) else b""
+        errors, info = pf.check_response_frame(rsp, code)
+        if not errors and rsp != sess.sim.last_response:
+            notes.append("rcs380_c13_fidelity_wellformed_other_payload_observed")
+            return []
+        if errors:
+            rule = errors[0]
+    notes.append("rcs380_c13_fidelity_checked")
+    notes.append("rcs380_c13_fidelity_as_%s_checked" % role)
+    if rule is not None:
+        notes.append("rcs380_c13_fidelity_invalid_frame_accepted_observed")
+    if sent is None:
+        if sess.is_target and len(got) == 0:
+            # TgCommRF was told not to receive (receive time-out 0) and reports "no data": see time-out cells
+            notes.append("rcs380_c13_fidelity_empty_without_receive_observed")
+            return []
+        return [("rcs380/data-but-remote-silent/%s/%s@%s" % (role, fault_class(act) if act else "no-fault", cname),
+                 "exchange() returned %r although the remote side sent nothing during this exchange" % got)]
+    if got == bytes(sent):
+        return []
+    if rule is not None:
+        # the response frame failed the frame check (LCS / DCS / length / postamble) and was accepted all the same
+        return [("rcs380/data-differs/frame-check-failed:%s/%s@%s" % (rule, role, cname),
+                 "the %s response frame was corrupted on the host link (%s; frame rule '%s' violated) and exchange() "
+                 "returned %s although the remote sent %s" % (cname, act["fault"], rule, got.hex(), bytes(sent).hex()))]
+    return [("rcs380/data-differs/%s/%s@%s" % (role, fault_class(act) if act else "no-fault", cname),
+             "exchange() returned %s, the remote sent %s" % (got.hex(), bytes(sent).hex()))]
+
+
+def rf_status_clause(sess, cname, w, e, notes):
+    """finer clauses for the communication status word w of InCommRF / TgCommRF, e = the CommunicationError raised.
+    Judged for every word that contains the documented bit in question, whatever else is set (documented or not):
+      as listening target RF_OFF_ERROR set         -> BrokenLinkError (the external field is gone whatever else the
+                                                      chip noticed)
+      RECEIVE_TIMEOUT_ERROR set (and not the above) -> TimeoutError
+    The negative clauses (no time-out bit -> never TimeoutError, no RF-off bit -> never BrokenLinkError) only for words
+    made of documented bits: about the meaning of the other bits the chip documentation is silent."""
+    nfc = sess.nfc
+    viol = []
+    got = type(e).__name__
+    undocumented = bool(w & ~DOC_MASK)
+    if w & RF_OFF_BIT and sess.is_target:
+        others = w & ~RF_OFF_BIT
+        cls = "alone" if not others else ("with_undocumented" if undocumented else "combined")
+        notes.append("rcs380_c13_finer_rf_off_%s_checked" % cls)
+        if not isinstance(e, nfc.clf.BrokenLinkError):
+            with_ = "" if not others else ("+RECEIVE_TIMEOUT_ERROR" if others & TIMEOUT_BIT else "+other-bits")
+            viol.append(("rcs380/wrong-error/%s/rf-status:RF_OFF_ERROR%s@%s" % (got, with_, cname),
+                         "external field lost (status %08Xh has RF_OFF_ERROR set) must surface as "
+                         "nfc.clf.BrokenLinkError, got %s" % (w, got)))
+    elif w & TIMEOUT_BIT:
+        others = w & ~TIMEOUT_BIT
+        cls = "" if not others else ("_with_undocumented" if undocumented else "_combined")
+        notes.append("rcs380_c13_finer_timeout%s_checked" % cls)
+        notes.append("rcs380_c13_finer_timeout_as_%s_checked" % ("target" if sess.is_target else "initiator"))
+        if not isinstance(e, nfc.clf.TimeoutError):
+            with_ = "" if not others else ("+undocumented-bits" if undocumented else "+other-bits")
+            viol.append(("rcs380/wrong-error/%s/rf-status:RECEIVE_TIMEOUT_ERROR%s@%s" % (got, with_, cname),
+                         "receive time-out (status %08Xh has RECEIVE_TIMEOUT_ERROR set) must surface as "
+                         "nfc.clf.TimeoutError, got %s" % (w, got)))
+    if not undocumented:
+        if not w & TIMEOUT_BIT and isinstance(e, nfc.clf.TimeoutError):
+            viol.append(("rcs380/wrong-error/TimeoutError/rf-status:non-timeout@%s" % cname,
+                         "status %08Xh is no time-out but surfaced as nfc.clf.TimeoutError" % w))
+        if not w & RF_OFF_BIT and isinstance(e, nfc.clf.BrokenLinkError):
+            viol.append(("rcs380/wrong-error/BrokenLinkError/rf-status:non-rf-off@%s" % cname,
+                         "status %08Xh is no field loss but surfaced as nfc.clf.BrokenLinkError" % w))
+    return viol
+
+
 def _judge_coarse(sess, code, act, res, notes):
     nfc = sess.nfc
     cname = S.CMD_NAMES.get(code, "%02Xh" % code)
@@ -408,6 +592,8 @@ def _judge_coarse(sess, code, act, res, notes):
             if act["kind"] == "rf_status":
                 viol.append(("rcs380/data-despite-rf-error/" + where,
                              "chip reported communication status %08Xh, exchange() returned %r as data" % (act["word"], bytes(val))))
+            else:
+                viol += fidelity_clause(sess, code, act, val, notes)
         elif val is None:
             out = "none"
             if not sess.is_target:
@@ -421,33 +607,13 @@ def _judge_coarse(sess, code, act, res, notes):
     e = val
     if isinstance(e, nfc.clf.CommunicationError):
         out = "clf." + type(e).__name__
-        if act["kind"] == "rf_status" and not act["word"] & ~DOC_MASK:
-            # finer clauses, only for words made of documented bits
-            w = act["word"]
-            got = type(e).__name__
-            others = w & ~RF_OFF_BIT
-            if w == TIMEOUT_BIT:
-                notes.append("rcs380_c13_finer_timeout_checked")
-                if not isinstance(e, nfc.clf.TimeoutError):
-                    viol.append(("rcs380/wrong-error/%s/rf-status:RECEIVE_TIMEOUT_ERROR@%s" % (got, cname),
-                                 "receive time-out status must surface as nfc.clf.TimeoutError, got %s" % got))
-            if w & RF_OFF_BIT and sess.is_target:
-                # the external field is gone: BrokenLinkError, alone or together with whatever else the chip noticed
-                notes.append("rcs380_c13_finer_rf_off_%s_checked" % ("combined" if others else "alone"))
-                if not isinstance(e, nfc.clf.BrokenLinkError):
-                    with_ = "" if not others else ("+RECEIVE_TIMEOUT_ERROR" if others & TIMEOUT_BIT else "+other-bits")
-                    viol.append(("rcs380/wrong-error/%s/rf-status:RF_OFF_ERROR%s@%s" % (got, with_, cname),
-                                 "external field lost (status %08Xh has RF_OFF_ERROR set) must surface as "
-                                 "nfc.clf.BrokenLinkError, got %s" % (w, got)))
-            if not w & TIMEOUT_BIT and isinstance(e, nfc.clf.TimeoutError):
-                viol.append(("rcs380/wrong-error/TimeoutError/rf-status:non-timeout@%s" % cname,
-                             "status %08Xh is no time-out but surfaced as nfc.clf.TimeoutError" % w))
-            if not w & RF_OFF_BIT and isinstance(e, nfc.clf.BrokenLinkError):
-                viol.append(("rcs380/wrong-error/BrokenLinkError/rf-status:non-rf-off@%s" % cname,
-                             "status %08Xh is no field loss but surfaced as nfc.clf.BrokenLinkError" % w))
+        viol += concrete_type_clause("exchange", where, e, notes)
+        if act["kind"] == "rf_status":
+            viol += rf_status_clause(sess, cname, act["word"], e, notes)
         return out, viol
     if isinstance(e, OSError):
         out = "IOError"
+        viol += concrete_type_clause("exchange", where, e, notes)
         if act["kind"] == "rf_status":
             viol.append(("rcs380/wrong-error/IOError/" + where,
                          "an RF communication status surfaced as IOError (reserved for a broken host link)"))
@@ -548,6 +714,282 @@ def c13_kind(kind, R, rng, n_random, all_pairs32, link_fresh):
     R.count("rcs380_c13_sessions", sessions)
 
 
+# ---- sequences: several exchanges on one session (time-out values, two-fault schedules, follow-up) ----------
+# A sequence is a list of steps executed on a fresh, really activated session:
+#   {"op": "warm"}                                   regular exchange, must succeed (else the run is inconclusive)
+#   {"op": "fault", "script": {k: action, ...}}       exchange under one or two scripted faults; judged by judge()
+#                                                    with the fault that was delivered last
+#   {"op": "timeout", "timeout": t, "mute": 0|1, "send": "auto"|None}
+#                                                    exchange with time-out argument t; mute: the remote keeps silent
+#   {"op": "follow", "demand": bool}                 regular exchange afterwards: it must not be answered with anything
+#                                                    but what the remote sent in *this* exchange; demand: no host-link
+#                                                    fault happened before, so the answer must come back as data
+TMO_INI = [0, None, 1e-6, 0.0004, 0.001, 0.0015, 0.1, 6.5535, 6.5536, 65.535, 65.536, 70.0, 1e6]
+TMO_TGT = [0, None, 1e-6, 0.0004, 0.00099, 0.001, 0.0015, 0.5, 65.535, 65.5354, 65.536, 70.0, 1e6]
+
+
+def tmo_class(t):
+    if t is None:
+        return "none"
+    if t == 0:
+        return "zero"
+    if t < 0.001:
+        return "below-1ms"
+    if t <= 65.535:
+        return "regular"
+    if t < 65.536:
+        return "65535ms-to-65536ms"
+    return "above-65535ms"
+
+
+def _seq_case(kind, cls, steps):
+    return {"family": FAM, "prop": "c13", "stage": "sequence", "kind": kind, "cls": cls, "steps": steps}
+
+
+def _act_key(act):
+    return sorted((a, bytes(b).hex() if isinstance(b, (bytes, bytearray)) else b) for a, b in act.items())
+
+
+def run_sequence(case, R, codes=None):
+    """-> list of outcome classes (one per step) or None if the sequence could not be set up"""
+    kind = case["kind"]
+    cls = case["cls"]
+    try:
+        sess = Session(kind)
+    except SetupError as e:
+        R.inconc("rcs380 C13 sequence setup: %s" % e)
+        return None
+    nfc = sess.nfc
+    role = "target" if sess.is_target else "initiator"
+    rf_code = 0x48 if sess.is_target else 0x04
+    outs = []
+    if case.get("pipe"):
+        # transfers the driver did not read stay in the bulk-in pipe (as on a real USB endpoint; nfcpy's own
+        # Chipset.__init__ drains such leftovers) instead of vanishing when the next command is written
+        sess.sim.persistent_pipe = True
+    history = []                 # classes of the steps so far (for the signature of a follow-up)
+    pfx = "rcs380_c13_%s_" % cls
+
+    def report(viol, res, step_no):
+        for sig, what in viol:
+            text = "%s kind=%s step %d of %s: %s" % (sig, kind, step_no, [st["op"] for st in case["steps"]], what)
+            if res[0] == "exc":
+                text += " | " + exc_text(res[1])[-400:].replace("\n", " / ")
+            R.violation(sig, text, case)
+
+    for i, st in enumerate(case["steps"], 1):
+        op = st["op"]
+        notes = []
+        if op == "warm":
+            res, send = sess.exchange()
+            if res[0] != "ret" or res[1] is None or bytes(res[1]) != (sess.last_rx() or b"\xff-"):
+                R.inconc("rcs380 C13 sequence: warm-up exchange %d of %s did not return the remote's data: %r" % (i, kind, res[1]))
+                return None
+            R.count(pfx + "warm_exchanges")
+            outs.append("data")
+            continue
+        if op == "fault":
+            script = {int(k): dict(a) for k, a in st["script"].items()}
+            res, send = sess.exchange(script)
+            applied = list(sess.sim.applied)
+            if not applied:
+                R.count(pfx + "fault_not_reached")
+                R.count("rcs380_c13_fault_not_reached")
+                R.count("rcs380_c13_cells")
+                outs.append("not-reached")
+                history.append("unreached")
+                continue
+            k, act = applied[-1]
+            code = sess.sim.cmdlog[k - 1][0]
+            out, viol = judge(sess, code, act, res, notes)
+            R.count("rcs380_c13_cells")
+            R.count(pfx + "fault_steps")
+            R.count(pfx + "faults_delivered", len(applied))
+            if len(applied) > 1:
+                R.count(pfx + "two_faults_in_one_exchange")
+                R.seen(pfx + "two_fault_pairs", "%s@%s + %s@%s -> %s" % (
+                    fault_class(applied[0][1]).split(":")[-1][:14], S.CMD_NAMES.get(sess.sim.cmdlog[applied[0][0] - 1][0]),
+                    fault_class(act).split(":")[0], S.CMD_NAMES.get(code), out.split(":")[0]))
+            if len(history) and any(h.startswith("fault") for h in history):
+                R.count(pfx + "fault_after_faulty_exchange")
+            hard = any(a["kind"] == "link" and S.fault_phase(a["fault"]) for _, a in applied)
+            history.append("fault-hard" if hard else ("fault-link" if any(a["kind"] == "link" for _, a in applied) else "fault-rf"))
+            report(viol, res, i)
+        elif op == "timeout":
+            t = st["timeout"]
+            tc = tmo_class(t)
+            mute = int(st.get("mute") or 0)
+            sess.remote().mute = mute
+            send = sess.send_data()
+            if st.get("send", "auto") is None:
+                send = (None, send[1])
+            res, send = sess.exchange(None, send=(send[0], t))
+            sess.remote().mute = 0
+            out, viol = _judge_coarse(sess, rf_code, PLAIN, res, notes)
+            # was the chip asked to receive at all, and for a time the documentation is clear about?
+            waits = (t is None or t > 0) if sess.is_target else bool(t)
+            where = "%s/timeout:%s%s" % (role, tc, "/receive-only" if send[0] is None else "")
+            viol = [(sig + "/timeout:" + tc if sig.startswith("rcs380/escape/") else sig, w) for sig, w in viol]
+            R.count(pfx + "steps")
+            R.count(pfx + "as_%s" % role)
+            R.count(pfx + tc.replace("-", "_"))
+            if send[0] is None:
+                R.count(pfx + "receive_only")
+            R.seen(pfx + "outcomes", "%s %s -> %s" % (where, "silent" if mute else "answers", out))
+            # target role: did the driver tell the chip not to receive at all (TgCommRF receive time-out field 0)?
+            no_receive = False
+            if sess.is_target and sess.sim.cmdlog and sess.sim.cmdlog[-1][0] == 0x48 and len(sess.sim.cmdlog[-1][1]) >= 33:
+                no_receive = bytes(sess.sim.cmdlog[-1][1][31:33]) == b"\x00\x00"
+            if not out.startswith("escape"):
+                if waits and no_receive:
+                    R.count(pfx + "positive_timeout_not_received_observed")
+                    if out == "data" and len(res[1]) == 0:
+                        viol.append(("rcs380/timeouts/empty-data-without-receive/%s" % where,
+                                     "exchange(.., %r) as target returned empty data at once: the chip was told not to "
+                                     "receive (TgCommRF receive time-out 0), so neither the initiator's next frame nor "
+                                     "nfc.clf.TimeoutError reaches the caller" % (t,)))
+                elif waits and mute:
+                    R.count(pfx + "silent_checked")
+                    if not (res[0] == "exc" and isinstance(res[1], nfc.clf.TimeoutError)):
+                        viol.append(("rcs380/timeouts/silent-remote/%s->%s" % (where, out),
+                                     "the remote kept silent for the whole time-out of %r s, exchange() gave %s instead of "
+                                     "nfc.clf.TimeoutError" % (t, out)))
+                elif waits:
+                    R.count(pfx + "answer_checked")
+                    if out != "data":
+                        viol.append(("rcs380/timeouts/answer-not-returned/%s->%s" % (where, out),
+                                     "the remote answered within the time-out of %r s, exchange() gave %s" % (t, out)))
+                else:
+                    R.count(pfx + "no_wait_observed")
+            history.append("timeout:" + tc)
+            report(viol, res, i)
+        elif op == "follow":
+            leftover = len(sess.sim.queue) if case.get("pipe") else 0
+            res, send = sess.exchange()
+            out, viol = _judge_coarse(sess, rf_code, PLAIN, res, notes)
+            R.count(pfx + "follow_ups")
+            prev = history[-1] if history else "start"
+            if case.get("pipe"):
+                R.count(pfx + "follow_ups_with_unread_transfers" if leftover else pfx + "follow_ups_pipe_empty")
+                R.seen(pfx + "unread_transfer_outcomes", "%s %d unread -> %s" % (role, leftover, out))
+                if leftover:
+                    # what the driver did not read of an earlier answer must not be taken for this exchange's answer
+                    viol = [(("rcs380/stale-response/%s@%s" % (role, S.CMD_NAMES[rf_code]), w + " (transfers of an earlier, "
+                              "failed command were still unread when this exchange began)")
+                             if sig.startswith(("rcs380/data-differs/", "rcs380/data-but-remote-silent/")) else (sig, w))
+                            for sig, w in viol]
+            R.seen(pfx + "follow_up_outcomes", "%s after %s -> %s" % (role, prev, out))
+            if st.get("demand", True):
+                R.count(pfx + "follow_ups_demanded")
+                if out == "data" and not viol and sess.last_tx() != send[0]:
+                    viol.append(("rcs380/follow-up/other-command-on-air/%s/after-%s" % (role, prev),
+                                 "the chip was asked to transmit %r, exchange() sent %r" % (sess.last_tx(), send[0])))
+                elif out != "data" and not out.startswith("escape"):
+                    viol.append(("rcs380/follow-up/answer-not-returned/%s/after-%s->%s" % (role, prev, out),
+                                 "a regular exchange after %s: the remote answered, exchange() gave %s" % (prev, out)))
+            history.append("follow")
+            report(viol, res, i)
+        else:
+            raise ValueError(op)
+        for name in notes:
+            R.count(name)
+        outs.append(out)
+    R.count("rcs380_c13_host_frames_validated", sess.sim.frames_checked)
+    _report_frame_errors(sess.sim, R, "c13")
+    R.case(("sequence", kind, cls, [[st["op"], st.get("timeout", 0) if st["op"] == "timeout" else None, st.get("mute"),
+                                     st.get("send", "auto"), sorted((int(k), _act_key(a)) for k, a in st.get("script", {}).items())]
+                                    for st in case["steps"]]))
+    return outs
+
+
+def c13_timeouts(kind, R, rng):
+    """every time-out class x {remote answers, remote silent} x {send + receive, receive only (target role)}, each after
+    one regular exchange and followed by a regular exchange"""
+    is_target = kind in INI_KINDS
+    for t in (TMO_TGT if is_target else TMO_INI):
+        for mute in (0, 1):
+            for send in (("auto", None) if is_target else ("auto",)):
+                steps = [{"op": "warm"}, {"op": "timeout", "timeout": t, "mute": mute, "send": send},
+                         {"op": "follow", "demand": True}, {"op": "follow", "demand": True}]
+                run_sequence(_seq_case(kind, "timeouts", steps), R)
+
+
+SOFT_FIRST = [{"kind": "link", "fault": "garbage", "bytes": b"\xaa\x55\x00\xff\x12"}, {"kind": "link", "fault": "wrong-rsp-code"},
+              {"kind": "link", "fault": "error-frame"}, {"kind": "link", "fault": "ack-ack"},
+              {"kind": "link", "fault": "short-frame", "cut": 7}, {"kind": "link", "fault": "surplus", "n": 2},
+              {"kind": "link", "fault": "bad-dcs", "xor": 0x01}, {"kind": "link", "fault": "garbage@ack", "bytes": b"\x00"}]
+SECOND_RF = [TIMEOUT_BIT, RF_OFF_BIT, 0x04, TIMEOUT_BIT | 0x04, TIMEOUT_BIT | RF_OFF_BIT, RF_OFF_BIT | 0x01, 0x80000000,
+             TIMEOUT_BIT | 0x20, 0xFFFFFFFF]
+
+
+def schedule_cases(kind, codes, rng, n_in, n_across, full=False):
+    """two-fault schedules.  in one exchange: a soft host-link fault at a preparatory command (the driver goes on) +
+    an RF status / any host-link fault at a later command; across exchanges: RF status at the RF command, then a hard
+    host-link fault at a command of the next exchange (and the other way round), then regular exchanges.  Each after
+    0..5 successful exchanges."""
+    n = len(codes)
+    hard = [{"kind": "link", "fault": f} for f in S.faults_hard()]
+    inside = []
+    for k1 in range(1, n):
+        for a1 in SOFT_FIRST:
+            for k2 in range(k1 + 1, n + 1):
+                seconds = list(hard) + [dict(a) for a in SOFT_FIRST[:4]]
+                if codes[k2 - 1] in S.RF_COMMANDS:
+                    seconds += [{"kind": "rf_status", "word": w} for w in SECOND_RF]
+                else:
+                    seconds += [{"kind": "status_byte", "value": v} for v in (0x01, 0x7F)]
+                for a2 in seconds:
+                    inside.append({str(k1): a1, str(k2): a2})
+    across = []
+    for w in SECOND_RF:
+        for k in range(1, n + 1):
+            for h in hard:
+                across.append(({str(n): {"kind": "rf_status", "word": w}}, {str(k): h}))
+    if not full:
+        inside = rng.sample(inside, min(n_in, len(inside)))
+        across = rng.sample(across, min(n_across, len(across)))
+    for script in inside:
+        warm = rng.choice([0, 1, 2, 5])
+        yield _seq_case(kind, "schedule", [{"op": "warm"}] * warm + [{"op": "fault", "script": script},
+                                                                        {"op": "follow", "demand": False}])
+    for i, (rf, hd) in enumerate(across):
+        warm = rng.choice([0, 1, 3])
+        first, second = (rf, hd) if i % 2 == 0 else (hd, rf)
+        yield _seq_case(kind, "schedule", [{"op": "warm"}] * warm + [
+            {"op": "fault", "script": first}, {"op": "fault", "script": second}, {"op": "follow", "demand": False},
+            {"op": "follow", "demand": False}])
+    # unread transfers: a fault that makes the driver give up before it has read everything the chip sent (garbled or
+    # cut ACK, error frame in its place), then regular exchanges on a pipe that keeps what was not read
+    for k in range(1, n + 1):
+        for a in ({"kind": "link", "fault": "garbage@ack", "bytes": b"\x00"}, {"kind": "link", "fault": "short-ack", "cut": 3},
+                  {"kind": "link", "fault": "error-frame@ack"}):
+            c = _seq_case(kind, "schedule", [{"op": "warm"}, {"op": "fault", "script": {str(k): a}},
+                                             {"op": "follow", "demand": False}, {"op": "follow", "demand": False},
+                                             {"op": "follow", "demand": False}])
+            c["pipe"] = True
+            yield c
+    # RF errors only (no host-link fault anywhere): every ordered pair of status words in consecutive exchanges (the
+    # class of the second must not depend on the first), the following regular exchange must deliver
+    pairs = [(a, b) for a in SECOND_RF for b in SECOND_RF]
+    if not full:
+        pairs = rng.sample(pairs, 24)
+    for a, b in pairs:
+        warm = rng.choice([0, 2, 5])
+        yield _seq_case(kind, "schedule", [{"op": "warm"}] * warm + [
+            {"op": "fault", "script": {str(n): {"kind": "rf_status", "word": a}}},
+            {"op": "fault", "script": {str(n): {"kind": "rf_status", "word": b}}}, {"op": "follow", "demand": True}])
+
+
+def c13_schedules(kind, R, rng, n_in, n_across, full=False):
+    try:
+        codes, _ = reference(Session(kind))
+    except SetupError as e:
+        R.inconc("rcs380 C13 setup: %s" % e)
+        return
+    for case in schedule_cases(kind, codes, rng, n_in, n_across, full):
+        run_sequence(case, R)
+
+
 # ---- activation: the real clf.sense() / clf.listen() under faults -------------------------------------
 # "nobody there" variants: what sense()/listen() do when no card is in the field / no reader shows up
 ABSENT_KINDS = ["T2T", "T4B", "T3T212", "T3T424", "TT2", "TT4", "TT3-212", "DEP-106A"]
@@ -602,7 +1044,7 @@ def attempt_activation(kind, absent, script, spy=None):
         return sess, "IOError", e
     except nfc.clf.Error as e:          # CommunicationError subclasses, UnsupportedTargetError
         return sess, "clf." + type(e).__name__, e
-    except Exception as e:               # the oracle classifies it
+    except BaseException as e:          # the oracle classifies it
         return sess, "escape:" + type(e).__name__, e
     finally:
         if spy is not None:
@@ -636,6 +1078,8 @@ def run_activation_cell(kind, absent, k, code, act, R):
                      "%s.%s escaped ContactlessFrontend.%s(): %s" % (type(exc).__module__, type(exc).__name__, stage, str(exc)[:120])))
     elif out.startswith("ret:"):
         viol.append(("rcs380/bad-return/%s/%s/%s" % (out[4:], where, stage), "%s() returned a %s" % (stage, out[4:])))
+    elif exc is not None:
+        viol += concrete_type_clause(stage, where, exc, notes)
     viol += hostlink_clause(stage, label, kind in INI_KINDS, code, act, out, notes)
     for name in notes:
         R.count(name)
@@ -814,6 +1258,10 @@ def plan_c13(tier):
     for i, g in enumerate(_balanced(ACTIVATIONS, len(plans))):
         plans[len(plans) - 1 - i]["activations"] = g
     plans[0]["init_close"] = True
+    # time-out values and two-fault schedules: the kinds of the shard itself
+    for p in plans:
+        p["timeouts"] = True
+        p["schedules"] = [40, 24, False] if tier == "quick" else [0, 0, True]
     return plans
 
 
@@ -833,12 +1281,28 @@ def run_c13(desc, R, rng):
             R.inconc("rcs380 C13 activation setup: %s" % e)
     if desc.get("init_close"):
         c13_init_close(R, rng)
+    for kind in desc["kinds"]:
+        if desc.get("timeouts"):
+            c13_timeouts(kind, R, rng)
+        if desc.get("schedules"):
+            n_in, n_across, full = desc["schedules"]
+            c13_schedules(kind, R, rng, n_in, n_across, full)
+    # a fault that the exchange never reached proves nothing: tolerated for 5 % of the cells of a shard at most
+    cells = R.counters.get("rcs380_c13_cells", 0)
+    missed = R.counters.get("rcs380_c13_fault_not_reached", 0)
+    R.count("rcs380_c13_fault_reached", cells - missed)
+    if cells and missed * 20 > cells:
+        R.inconc("rcs380 C13: %d of %d scripted faults were never reached by the exchange (floor: 5 %%)" % (missed, cells))
     R.sample({"family": FAM, "kinds": desc["kinds"], "activations": desc.get("activations", [])})
 
 
 def replay_c13(case, R):
     """fresh driver + simulator, real activation into the kind, the one exchange under the recorded script"""
     _setup()
+    if case.get("stage") == "sequence":
+        outs = run_sequence(case, R)
+        R.count("rcs380_replay_sequence_steps", len(outs or ()))
+        return
     if case.get("stage") == "activation":
         out = run_activation_cell(case["kind"], bool(case.get("absent")), case["k"], case["code"], dict(case["act"]), R)
         R.count("rcs380_replay_outcome_" + out.split(":")[0].replace(".", "_"))
@@ -1036,8 +1500,17 @@ def c14_responses(desc, R, rng):
 
 
 # ---- Type 2 Tag CRC ----------------------------------------------------------------------------------------
-def _t2_case(sess, raw, R, cls):
-    """one READ whose raw card response (message + CRC bytes) is `raw`; oracle from the bit-serial CRC_A"""
+def sel_class(sel):
+    if sel == 0:
+        return "selres-00"
+    if sel & 0x60 == 0:
+        return "selres-tt2-nonzero"
+    return "selres-iso-or-dep"
+
+
+def _t2_case(sess, raw, R, cls, sel=None):
+    """one READ whose raw card response (message + CRC bytes) is `raw`; oracle from the bit-serial CRC_A.
+    sel: SEL_RES of the card when it is not the Type 2 Tag's 00h (signatures and counters carry its class)"""
     nfc = sess.nfc
     sess.sim.rf_mangle = lambda _raw, raw=raw: raw
     try:
@@ -1047,25 +1520,130 @@ def _t2_case(sess, raw, R, cls):
     msg, crc = raw[:-2], raw[-2:]
     valid = S.crc_a(msg) == crc
     case = {"family": FAM, "prop": "c14", "part": "t2crc", "raw": raw, "cls": cls}
-    R.case(("t2crc", raw.hex()))
-    R.count("rcs380_c14_t2crc_cases")
+    sfx, cpfx = "", "rcs380_c14_t2crc_"
+    if sel is not None:
+        case["sel_res"] = sel
+        sfx = "/" + sel_class(sel)
+        cpfx = "rcs380_c14_%s_" % sel_class(sel).replace("-", "_")
+    R.case(("t2crc", sel, raw.hex()))
+    R.count(cpfx + "cases")
+    if sess.sim.no_crc_tx:
+        R.count("rcs380_c14_t2crc_command_sent_without_crc", sess.sim.no_crc_tx)
+        sess.sim.no_crc_tx = 0
     if valid:
         if res[0] == "ret" and res[1] is not None and bytes(res[1]) == msg:
-            R.count("rcs380_c14_t2crc_valid_returned")
+            R.count(cpfx + "valid_returned")
         elif res[0] == "ret":
-            R.violation("rcs380/t2t-crc/data-differs", "T2T response %s with valid CRC_A returned as %r" % (raw.hex(), res[1]), case)
+            R.violation("rcs380/t2t-crc/data-differs" + sfx, "T2T response %s with valid CRC_A returned as %r" % (raw.hex(), res[1]), case)
         else:
-            R.violation("rcs380/t2t-crc/valid-crc-rejected", "T2T response %s with valid CRC_A raised %s" % (
+            R.violation("rcs380/t2t-crc/valid-crc-rejected" + sfx, "T2T response %s with valid CRC_A raised %s" % (
                 raw.hex(), type(res[1]).__name__), case)
     else:
         if res[0] == "ret":
-            R.violation("rcs380/t2t-crc/wrong-crc-accepted", "T2T response %s (CRC_A should be %s) returned as data %r" % (
+            R.violation("rcs380/t2t-crc/wrong-crc-accepted" + sfx, "T2T response %s (CRC_A should be %s) returned as data %r" % (
                 raw.hex(), S.crc_a(msg).hex(), res[1]), case)
         elif isinstance(res[1], (nfc.clf.CommunicationError, OSError)):
-            R.count("rcs380_c14_t2crc_corrupt_rejected")
+            R.count(cpfx + "corrupt_rejected")
             R.seen("rcs380_c14_t2crc_reject_type", type(res[1]).__name__)
         else:
             R.violation("rcs380/t2t-crc/escape/%s" % _xsig(res[1]), "T2T response with wrong CRC raised %r" % (res[1],), case)
+
+
+def _acknak_case(sess, octets, R, sel):
+    """one WRITE that the card answers with the CRC-less frame `octets` (4 bit ACK/NAK, arrives as one octet; or any
+    other one/two octet frame without CRC).  For a Type 2 Tag platform target ((SEL_RES & 60h) == 0) the octets must
+    reach the caller as they are; otherwise the chip checks the CRC itself and reports an error (observed)."""
+    nfc = sess.nfc
+    m = lambda _p, octets=octets: octets            # noqa: E731
+    m.no_crc_frames = True
+    sess.sim.rf_mangle = m
+    try:
+        res, send = sess.exchange(send=(bytes.fromhex("a205") + bytes([0x11, 0x22, 0x33, sess.seq & 0xFF]), 0.1))
+    finally:
+        sess.sim.rf_mangle = None
+    tt2 = sel & 0x60 == 0
+    case = {"family": FAM, "prop": "c14", "part": "acknak", "octets": octets, "sel_res": sel}
+    R.case(("acknak", sel, octets.hex()))
+    R.count("rcs380_c14_acknak_cases")
+    if sess.sim.no_crc_tx:
+        R.count("rcs380_c14_t2crc_command_sent_without_crc", sess.sim.no_crc_tx)
+        sess.sim.no_crc_tx = 0
+    if res[0] == "ret":
+        if res[1] is not None and bytes(res[1]) == octets:
+            R.count("rcs380_c14_acknak_returned" if tt2 else "rcs380_c14_acknak_returned_non_tt2")
+        else:
+            R.violation("rcs380/t2t-crc/ack-nak-differs/" + sel_class(sel), "the %d octet frame %s without CRC came back as %r" % (
+                len(octets), octets.hex(), res[1]), case)
+    elif isinstance(res[1], (nfc.clf.CommunicationError, OSError)):
+        if tt2:
+            R.violation("rcs380/t2t-crc/ack-nak-lost/" + sel_class(sel), "%s for the CRC-less %d octet answer %s of a Type 2 Tag "
+                        "platform target (SEL_RES %02Xh)" % (type(res[1]).__name__, len(octets), octets.hex(), sel), case)
+        else:
+            R.count("rcs380_c14_acknak_rejected_non_tt2")
+    else:
+        R.violation("rcs380/t2t-crc/escape/%s" % _xsig(res[1]), "CRC-less answer raised %r" % (res[1],), case)
+
+
+SEL_TT2 = [v for v in range(256) if v & 0x60 == 0]                  # what the driver treats as "Type 2 Tag platform"
+SEL_NAMED = [0x08, 0x09, 0x10, 0x18, 0x88, 0x01, 0x98]              # MIFARE Classic 1K/Mini/Plus/4K, ...
+SEL_OTHER = [0x20, 0x28, 0x38, 0x40, 0x60, 0xA0, 0xE0]              # ISO-DEP / NFC-DEP capable: the chip keeps checking
+
+
+def c14_selres(desc, R, rng):
+    """Type A cards with the Type 2 Tag command set over every SEL_RES value (found through the real clf.sense()):
+    the driver asks the chip not to check CRC_A for (SEL_RES & 60h) == 0 and must then verify it itself; for the
+    others the simulated chip checks (InSetProtocol check_crc) - either way a wrong CRC_A never comes back as data, an
+    intact frame comes back as its payload, and the CRC-less ACK/NAK reaches the caller of a Type 2 Tag platform."""
+    tier = desc["tier"]
+    if desc.get("sels") is not None:
+        sels = list(desc["sels"])
+    elif tier == "quick":
+        sels = SEL_TT2 + SEL_OTHER
+    else:
+        sels = list(range(256))
+    for sel in sels:
+        try:
+            sess = Session("T2T", sel_res=sel)
+        except SetupError as e:
+            if sel & 0x04:
+                # SEL_RES bit 3: "UID not complete" - the driver asks for a further cascade level that this card has not
+                R.count("rcs380_c14_selres_cascade_bit_not_activated")
+            else:
+                R.inconc("rcs380 C14: cannot activate a Type A card with SEL_RES %02Xh: %s" % (sel, e))
+            continue
+        got = sess.clf.target.sel_res
+        if got is None or len(got) != 1 or got[0] != sel:
+            R.inconc("rcs380 C14: sense() reports SEL_RES %r for a card that answers %02Xh" % (got, sel))
+            continue
+        R.count("rcs380_c14_%s_cells" % sel_class(sel).replace("-", "_"))
+        full = tier != "quick" or sel in SEL_NAMED or sel == 0 or sel in SEL_OTHER[:2]
+        for ln in ([16, 1, 4] if tier == "quick" else [16, 1, 2, 4, 15, 17, 32]):
+            msg = rng.randbytes(ln)
+            good = msg + S.crc_a(msg)
+            _t2_case(sess, good, R, "valid", sel)
+            nbits = len(good) * 8
+            bits = range(nbits) if (full and ln in (16, 1)) or tier != "quick" else sorted(rng.sample(range(nbits), min(nbits, 12 if ln == 16 else 5)))
+            for i in bits:
+                m = bytearray(good)
+                m[i // 8] ^= 1 << (i % 8)
+                _t2_case(sess, bytes(m), R, "bitflip", sel)
+            for _ in range(3 if tier == "quick" else 20):
+                m = bytearray(good)
+                for __ in range(rng.randrange(1, 4)):
+                    m[rng.randrange(len(m))] = rng.randrange(256)
+                if S.crc_a(bytes(m[:-2])) != bytes(m[-2:]):
+                    _t2_case(sess, bytes(m), R, "substitute", sel)
+        R.seen("rcs380_c14_selres_check_crc", "%s/chip check_crc=%d add_crc=%d" % (
+            sel_class(sel), sess.sim.in_proto.get(2, 1), sess.sim.in_proto.get(1, 1)))
+        # the 4 bit ACK / NAK (one octet, no CRC), other CRC-less one and two octet frames
+        octs = [b"\x0a", b"\x00", b"\x01", b"\x04", b"\x05"]
+        if full:
+            octs += [bytes([v]) for v in range(16)] + [bytes([v]) for v in (0x1A, 0x80, 0xFF)] + [b"\x0a\x00", b"\x63\x63"]
+        for o in octs:
+            _acknak_case(sess, o, R, sel)
+        _report_frame_errors(sess.sim, R, "c14")
+
+
 
 
 def _crc_fns(msg, R):
@@ -1131,7 +1709,7 @@ def c14_t2crc(desc, R, rng):
 def plan_c14(tier):
     if tier == "quick":
         return [{"part": "frames", "timeout": 300},
-                {"part": "responses+operation", "subst": 300, "timeout": 300},
+                {"part": "responses+operation", "subst": 300, "timeout": 300, "selres": True},
                 {"part": "t2crc", "two_byte_sample": 1500, "long": 300, "timeout": 300}]
     plans = []
     # every payload length 0..1100 for every command code, in 4 length slices
@@ -1146,6 +1724,8 @@ def plan_c14(tier):
     for i in range(4):
         plans.append({"part": "t2crc", "two_byte_all": True, "two_byte": [i * 64, i * 64 + 64], "one_byte": i == 0,
                       "long": 1500, "flip_every": 64, "timeout": 1500})
+    for i in range(2):
+        plans.append({"part": "selres", "sels": list(range(i * 128, i * 128 + 128)), "timeout": 1500})
     return plans
 
 
@@ -1161,6 +1741,10 @@ def run_c14(desc, R, rng):
     elif part == "responses+operation":
         c14_responses(desc, R, rng)
         c14_operation(desc, R, rng)
+        if desc.get("selres"):
+            c14_selres(desc, R, rng)
+    elif part == "selres":
+        c14_selres(desc, R, rng)
     elif part == "t2crc":
         c14_t2crc(desc, R, rng)
     R.sample({"family": FAM, "part": part})
@@ -1184,8 +1768,11 @@ def replay_c14(case, R):
         elif info["data"] != bytes(case["data"]):
             R.violation("rcs380/frame/payload-differs", "Frame() carries other bytes", case)
     elif part == "t2crc":
-        sess = Session("T2T")
-        _t2_case(sess, bytes(case["raw"]), R, case.get("cls", "replay"))
+        sess = Session("T2T", sel_res=case.get("sel_res"))
+        _t2_case(sess, bytes(case["raw"]), R, case.get("cls", "replay"), case.get("sel_res"))
+    elif part == "acknak":
+        sess = Session("T2T", sel_res=case.get("sel_res"))
+        _acknak_case(sess, bytes(case["octets"]), R, case["sel_res"])
     elif part == "crcfn":
         _crc_fns(bytes(case["msg"]), R)
     elif part == "operation":
